@@ -20,11 +20,15 @@ type RpcFut = Pin<Box<dyn Future<Output = Result<ReplyFut, ()>>>>;
 async fn do_rpc(s: &'static mut Session<mt::MemTransport>, ok: bool) -> Result<ReplyFut, ()> {
     if ok {
         let fut = s.rpc::<Get, _>(|b| b.finish()).await.map_err(|_| ())?;
-        Ok(Box::pin(async move { fut.await.map(|o| o.to_string()).map_err(|_| ()) }))
+        Ok(Box::pin(async move {
+            fut.await.map(|o| o.to_string()).map_err(|_| ())
+        }))
     } else {
         // the server did not advertise :candidate → Operation::new fails, nothing is sent
         let fut = s.rpc::<Commit, _>(|b| b.finish()).await.map_err(|_| ())?;
-        Ok(Box::pin(async move { fut.await.map(|()| String::new()).map_err(|_| ()) }))
+        Ok(Box::pin(async move {
+            fut.await.map(|()| String::new()).map_err(|_| ())
+        }))
     }
 }
 
@@ -42,16 +46,26 @@ enum Status {
 }
 
 pub fn message(id: Option<u64>, tag: u64, p2: bool) -> String {
-    let idattr = id.map(|i| format!(" message-id=\"{i}\"")).unwrap_or_default();
-    let body = if p2 { format!("<data>{tag}</data>") } else { format!("<junk>{tag}</junk>") };
-    format!("<rpc-reply xmlns=\"{}\"{idattr}>{body}</rpc-reply>]]>]]>", mt::BASE_NS)
+    let idattr = id
+        .map(|i| format!(" message-id=\"{i}\""))
+        .unwrap_or_default();
+    let body = if p2 {
+        format!("<data>{tag}</data>")
+    } else {
+        format!("<junk>{tag}</junk>")
+    };
+    format!(
+        "<rpc-reply xmlns=\"{}\"{idattr}>{body}</rpc-reply>]]>]]>",
+        mt::BASE_NS
+    )
 }
 
 /// run one schedule on the real code; returns the canonical observation
 pub fn run_schedule(acts: &[String]) -> String {
     let (t, peer) = mt::new();
     peer.deliver(mt::hello(&[mt::CAP_BASE10], 4));
-    let mut est: Pin<Box<dyn Future<Output = Result<Session<mt::MemTransport>, netconf::Error>>>> = Box::pin(Session::verif_new(t));
+    let mut est: Pin<Box<dyn Future<Output = Result<Session<mt::MemTransport>, netconf::Error>>>> =
+        Box::pin(Session::verif_new(t));
     let session = match poll_once(&mut est) {
         Poll::Ready(Ok(s)) => s,
         _ => return "session-failed".into(),
@@ -115,7 +129,11 @@ pub fn run_schedule(acts: &[String]) -> String {
             }
         } else if let Some(d) = a.strip_prefix('d') {
             let p: Vec<&str> = d.split('/').collect();
-            let id = if p[0] == "n" { None } else { Some(p[0].parse().unwrap()) };
+            let id = if p[0] == "n" {
+                None
+            } else {
+                Some(p[0].parse().unwrap())
+            };
             peer.deliver(message(id, p[1].parse().unwrap(), p[2] == "1"));
         } else if let Some(n) = a.strip_prefix('r') {
             for _ in 0..n.parse::<usize>().unwrap() {
@@ -132,7 +150,10 @@ pub fn run_schedule(acts: &[String]) -> String {
             }
         }
     }
-    let sent: Vec<String> = peer.sent()[1..].iter().map(|m| mt::message_id_of(m).unwrap_or("?".into())).collect();
+    let sent: Vec<String> = peer.sent()[1..]
+        .iter()
+        .map(|m| mt::message_id_of(m).unwrap_or("?".into()))
+        .collect();
     // the i-th successfully sent request belongs to the i-th future
     let shown: Vec<String> = futs
         .iter()
@@ -152,14 +173,22 @@ pub fn run_schedule(acts: &[String]) -> String {
     drop(futs);
     // SAFETY: all futures borrowing or sharing the session are gone
     unsafe { drop(Box::from_raw(sptr)) };
-    format!("sent={} futs={}", list(&sent), if shown.is_empty() { ".".into() } else { shown.join(";") })
+    format!(
+        "sent={} futs={}",
+        list(&sent),
+        if shown.is_empty() {
+            ".".into()
+        } else {
+            shown.join(";")
+        }
+    )
 }
 
 /// shadow bookkeeping so that generated schedules are expressible (no send while `rpc()` is blocked …)
 #[derive(Clone, Default)]
 struct Shadow {
-    ids: u64,          // message-ids consumed
-    futs: Vec<u64>,    // id per future
+    ids: u64,       // message-ids consumed
+    futs: Vec<u64>, // id per future
     blocked: Option<u64>,
     gate_open: bool,
     closed: bool,
@@ -167,7 +196,10 @@ struct Shadow {
 }
 
 fn gen_random(rng: &mut Rng, max_len: usize, clean: bool) -> Vec<String> {
-    let mut sh = Shadow { gate_open: true, ..Default::default() };
+    let mut sh = Shadow {
+        gate_open: true,
+        ..Default::default()
+    };
     let mut acts = vec![];
     let mut delivered: Vec<u64> = vec![];
     let len = 3 + rng.below(max_len);
@@ -191,7 +223,11 @@ fn gen_random(rng: &mut Rng, max_len: usize, clean: bool) -> Vec<String> {
             let tag = 100 + sh.tag;
             if clean || rng.chance(4, 5) {
                 // a reply for an issued id that has not been answered yet
-                let cand: Vec<u64> = (1..=sh.ids).filter(|i| !delivered.contains(i) && (sh.futs.contains(i) || sh.blocked == Some(*i))).collect();
+                let cand: Vec<u64> = (1..=sh.ids)
+                    .filter(|i| {
+                        !delivered.contains(i) && (sh.futs.contains(i) || sh.blocked == Some(*i))
+                    })
+                    .collect();
                 if let Some(&id) = cand.get(rng.below(cand.len().max(1))) {
                     delivered.push(id);
                     acts.push(format!("d{id}/{tag}/1"));
@@ -244,16 +280,24 @@ fn gen_drop_windows() -> Vec<Vec<String>> {
         // never polled
         s(&["s1", "s1", "x0", "d1/11/1", "d2/22/1", "r8"]),
         // waiting for the receive lock
-        s(&["s1", "s1", "s1", "p0", "p1", "x1", "d2/22/1", "d1/11/1", "d3/33/1", "r8"]),
+        s(&[
+            "s1", "s1", "s1", "p0", "p1", "x1", "d2/22/1", "d1/11/1", "d3/33/1", "r8",
+        ]),
         // handed the lock but not run yet
-        s(&["s1", "s1", "s1", "p0", "p1", "p2", "d2/22/1", "p0", "x1", "d1/11/1", "d3/33/1", "r8"]),
+        s(&[
+            "s1", "s1", "s1", "p0", "p1", "p2", "d2/22/1", "p0", "x1", "d1/11/1", "d3/33/1", "r8",
+        ]),
         // reading from the transport
         s(&["s1", "s1", "p0", "x0", "d1/11/1", "d2/22/1", "r8"]),
         s(&["s1", "s1", "p0", "p1", "x0", "d2/22/1", "d1/11/1", "r8"]),
         // holding another caller's reply while `rpc()` is blocked in the transport send
-        s(&["s1", "s1", "p0", "g0", "s1", "d2/22/1", "p0", "x0", "g1", "d3/33/1", "r8"]),
+        s(&[
+            "s1", "s1", "p0", "g0", "s1", "d2/22/1", "p0", "x0", "g1", "d3/33/1", "r8",
+        ]),
         // waiting for the requests lock before looking at its own slot
-        s(&["s1", "s1", "g0", "s1", "p0", "x0", "g1", "d2/22/1", "d3/33/1", "r8"]),
+        s(&[
+            "s1", "s1", "g0", "s1", "p0", "x0", "g1", "d2/22/1", "d3/33/1", "r8",
+        ]),
         // session stays usable: new request after drops
         s(&["s1", "p0", "x0", "s1", "d2/22/1", "r8"]),
         s(&["s1", "s1", "p1", "x1", "s1", "d1/11/1", "d3/33/1", "r8"]),
@@ -263,14 +307,25 @@ fn gen_drop_windows() -> Vec<Vec<String>> {
 pub fn main(opts: &Opts) {
     let mut rng = Rng::new(opts.seed);
     let mut sink = Sink::new();
-    let cfg = if opts.extra.iter().any(|e| e == "pinned") { "pinned" } else { "fixed" };
+    let cfg = if opts.extra.iter().any(|e| e == "pinned") {
+        "pinned"
+    } else {
+        "fixed"
+    };
     let only_drop = opts.extra.iter().any(|e| e == "only-drop");
     let only_nodrop = opts.extra.iter().any(|e| e == "only-nodrop");
     let mut scheds: Vec<Vec<String>> = vec![];
     if let Some(p) = &opts.replay {
         for l in std::fs::read_to_string(p).unwrap().lines() {
             if let Some(d) = l.strip_prefix("case\t") {
-                scheds.push(d.split('\t').next().unwrap().split(',').map(|s| s.to_string()).collect());
+                scheds.push(
+                    d.split('\t')
+                        .next()
+                        .unwrap()
+                        .split(',')
+                        .map(|s| s.to_string())
+                        .collect(),
+                );
             }
         }
     } else {
@@ -295,7 +350,11 @@ pub fn main(opts: &Opts) {
         }
         let n = if opts.thorough() { 200_000 } else { 6_000 };
         for i in 0..n {
-            scheds.push(gen_random(&mut rng, if i % 3 == 0 { 8 } else { 18 }, i % 2 == 0));
+            scheds.push(gen_random(
+                &mut rng,
+                if i % 3 == 0 { 8 } else { 18 },
+                i % 2 == 0,
+            ));
         }
         // all permutations of reply arrival for 3 and 4 pipelined requests, awaited in creation order
         for n in [3usize, 4] {
